@@ -20,7 +20,6 @@ use std::str::FromStr;
 use crate::class::Class;
 use crate::name::Name;
 use crate::rr::Type;
-use crate::util::Caseless;
 
 ////////////////////////////////////////////////////////////////////////
 // QUESTIONS                                                          //
@@ -121,14 +120,18 @@ impl FromStr for Qtype {
     type Err = &'static str;
 
     fn from_str(text: &str) -> Result<Self, Self::Err> {
-        match Caseless(text) {
-            Caseless("IXFR") => Ok(Self::IXFR),
-            Caseless("AXFR") => Ok(Self::AXFR),
-            Caseless("MAILB") => Ok(Self::MAILB),
-            Caseless("MAILA") => Ok(Self::MAILA),
-            Caseless("ANY") => Ok(Self::ANY),
-            Caseless("*") => Ok(Self::ANY),
-            _ => Type::from_str(text).map(Into::into),
+        if text.eq_ignore_ascii_case("IXFR") {
+            Ok(Self::IXFR)
+        } else if text.eq_ignore_ascii_case("AXFR") {
+            Ok(Self::AXFR)
+        } else if text.eq_ignore_ascii_case("MAILB") {
+            Ok(Self::MAILB)
+        } else if text.eq_ignore_ascii_case("MAILA") {
+            Ok(Self::MAILA)
+        } else if text.eq_ignore_ascii_case("ANY") || text == "*" {
+            Ok(Self::ANY)
+        } else {
+            Type::from_str(text).map(Into::into)
         }
     }
 }
@@ -198,11 +201,12 @@ impl FromStr for Qclass {
     type Err = &'static str;
 
     fn from_str(text: &str) -> Result<Self, Self::Err> {
-        match Caseless(text) {
-            Caseless("NONE") => Ok(Self::NONE),
-            Caseless("ANY") => Ok(Self::ANY),
-            Caseless("*") => Ok(Self::ANY),
-            _ => Class::from_str(text).map(Into::into),
+        if text.eq_ignore_ascii_case("NONE") {
+            Ok(Self::NONE)
+        } else if text.eq_ignore_ascii_case("ANY") || text == "*" {
+            Ok(Self::ANY)
+        } else {
+            Class::from_str(text).map(Into::into)
         }
     }
 }
